@@ -399,7 +399,7 @@ def build_cases(gen, rng, tier):
         add("raw-unit", items, [A(0), A(1)])
         add("raw-unit-nested", items, [A(2), ["vec", A(2)]], per_variant=False, nvals=2)
     # --- B. nesting 3 deep, mixed with std containers
-    for rep in range(40 if tier == "quick" else 200):
+    for rep in range(30 if tier == "quick" else 200):
         case = {"items": []}
         items = case["items"]
         depth_n = 3 + (rep % 2)
@@ -490,6 +490,43 @@ def build_cases(gen, rng, tier):
             it = {"kind": "struct", "name": nm(1), "params": [], "fields": mkfields(shape, rng.randrange(1, 4))}
         case["items"].append(it)
         add("bareformat-" + shape, case["items"], [A(1)], nvals=1)
+    # --- F. skip/ignore markers COMBINED with field-level formats in every order (skip before / after / between
+    #        formatted fields, several skips; tuple and named; structs and enum variants): the hand-written reference
+    #        feeds &format_args!(..) to std's builder and closes with finish_non_exhaustive() iff any field is skipped
+    import itertools
+    pats = []
+    for n in (2, 3, 4):
+        ps = [p for p in itertools.product("psf", repeat=n) if "s" in p and "f" in p]     # p plain, s skip, f format
+        if n == 4 and tier == "quick":
+            ps = rng.sample(ps, 10)
+        pats += ps
+    simple_tys = ["i32", "u8", "i64", "f64", "str", "bool"]
+
+    def pat_fields(kind, pat):
+        n = len(pat)
+        names = [G.ident("f%d" % i) for i in range(n)] if kind == "named" else [None] * n
+        fs = {"kind": kind, "list": [{"name": names[i], "ty": A(0) if rng.random() < 0.2 else LT(rng.choice(simple_tys)), "attr": None}
+                                      for i in range(n)]}
+        for i, c in enumerate(pat):
+            if c == "s":
+                fs["list"][i]["attr"] = [rng.choice(["skip", "ignore"])]
+            elif c == "f":
+                fs["list"][i]["attr"] = ["fmt", gen.pieces(fs, i) if rng.random() < 0.7 else gen.bare_pieces(fs, i, 0.3)]
+        return fs
+
+    def inner_item():
+        return {"kind": "struct", "name": nm(0), "params": [], "fields": {"kind": "tuple", "list": [
+            {"name": None, "ty": LT("i32"), "attr": None}, {"name": None, "ty": LT("u8"), "attr": None}]}}
+
+    for kind in ("tuple", "named"):
+        # structs: one pattern per case; enums: the same patterns as variants, six to an enum
+        for pat in pats:
+            items = [inner_item(), {"kind": "struct", "name": nm(1), "params": [], "fields": pat_fields(kind, pat)}]
+            add("skipfmt-%s-%s" % (kind, "".join(pat)), items, [A(1)])
+        for k in range(0, len(pats), 6):
+            vs = [{"name": G.ident("V%d" % i), "fields": pat_fields(kind, pat)} for i, pat in enumerate(pats[k:k + 6])]
+            items = [inner_item(), {"kind": "enum", "name": nm(1), "params": [], "variants": vs}]
+            add("skipfmt-enum-%s" % kind, items, [A(1)])
     return cases
 
 
@@ -586,6 +623,16 @@ def decision_tie(chk, inproc, cases, sites):
                                   "field %d of `%s` in %s carries #[debug(%s)] but the expansion hands the field itself to the "
                                   "builder instead of &format_args!(..): it will be formatted with the outer formatter's options" % (
                                       val[1], G.id_rs(name), src, G.fmt_attr_tokens(fs, fs["list"][val[1]]["attr"][1])))
+            # the decision-level oracle for the closing call: finish_non_exhaustive() iff some field is skipped
+            if rc[0] != "unit":
+                want_ex = not any(f["attr"] and f["attr"][0] in ("skip", "ignore") for f in fs["list"])
+                if rc[3] != want_ex:
+                    chk.violation("finish-kind-wrong",
+                                  {"case": dict(case, values=case.get("values", []), tag=case.get("tag", "extra")), "item": src, "unit": name,
+                                   "expansion_closes_with": "finish" if rc[3] else "finish_non_exhaustive"},
+                                  "`%s` in %s: the expansion closes the builder with %s() but %s" % (
+                                      G.id_rs(name), src, "finish" if rc[3] else "finish_non_exhaustive",
+                                      "a field is skipped (`..` must be printed)" if rc[3] else "no field is skipped"))
             # the decision-level oracle for names: std prints the identifier without r#
             if rc[1] != name["n"]:
                 chk.violation("raw-ident-name-literal", {"case": dict(case, values=case.get("values", []), tag=case.get("tag", "extra")), "item": src, "unit": name, "printed_name": rc[1], "std_name": name["n"]},
@@ -610,6 +657,17 @@ def text_hash(s):
 def flat3(t):
     """Coq ((a, b), c) or (a, b, c) -> (a, b, c)"""
     return (t[0][0], t[0][1], t[1]) if len(t) == 2 else tuple(t)
+
+
+_NE = [(re.compile(r"\n *\.\.\n"), "\n"), (re.compile(r", \.\.\)"), ")"), (re.compile(r"\(\.\.\)"), ""),
+       (re.compile(r", \.\. \}"), " }"), (re.compile(r" \{ \.\. \}"), "")]
+
+
+def strip_non_exhaustive(t):
+    """the text with every `..` marker a builder's finish_non_exhaustive() writes removed"""
+    for rx, rep in _NE:
+        t = rx.sub(rep, t)
+    return t
 
 
 def mode_of(spec):
@@ -745,7 +803,7 @@ def run(tier, seed, replay):
             vfx = G.val_coq(case, leaves, vv["v"], "dm", ALL_UNRAW) if need_fixed else None
             exprs.append("(R %s, R %s, SF %s, %s)" % (vdm, vsd, vdm, "R " + vfx if vfx else "@nil (nat * N * bool)"))
             jobs.append((ci, vi))
-    terms = common.coq_eval(["Verif.Base.Chars", "Verif.C06.Model"], exprs, preamble="\n".join(pre), batch=max(8, len(exprs) // 48 + 1), tag="c06t")
+    terms = common.coq_eval(["Verif.Base.Chars", "Verif.C06.Model"], exprs, preamble="\n".join(pre), batch=max(8, (len(exprs) + 15) // 16), tag="c06t")
     chk.log("model evaluated on %d values x %d specs x 2 flavours" % (len(jobs), len(G.TOP)))
 
     def mtext(t):
@@ -819,7 +877,10 @@ def run(tier, seed, replay):
             # ---- the oracle: byte-for-byte against std
             if rdm != rsd:
                 causes = []
-                if G.value_has_raw(case, vv["v"]) and rdm.replace("r#", "") == rsd:
+                if strip_non_exhaustive(rdm) == strip_non_exhaustive(rsd):
+                    # model-independent: the two texts differ only in `..` markers (finish vs finish_non_exhaustive)
+                    causes.append("non-exhaustive-marker-mismatch")
+                elif G.value_has_raw(case, vv["v"]) and rdm.replace("r#", "") == rsd:
                     # model-independent: the only difference is an `r#` prefix on a name
                     causes.append("raw-ident-name")
                 elif tie_ok:
